@@ -19,6 +19,34 @@ ASSUMPTIONS = ["kiddo SquaredEuclidean queries take and return squared distances
 KD = 'common::kd_tree'
 
 
+def _vote_as_sum(cx, b):
+    """the same vote written as an iterator sum: every hull entry zipped with its cyclic successor (h zipped with h.cycle().skip(1) stops
+    after len(h) pairs, the last pair being the wrap-around), summing signum(successor - entry), decided on 0 < sum"""
+    dag = b.dag()
+    found = []
+    for bi in b.live:
+        t = b.blocks[bi]['term']
+        if bi in b.reachable() and t['k'] == 'switch':
+            c = simplify(dag.operand(t['d'], bi, len(b.blocks[bi]['stmts'])))
+            if c[0] == 'lt' and c[1] == ('const', 0):
+                found.append(c[2])
+    if len(found) != 1:
+        return False
+    H = '(call *convex_hull_2d (param points))'
+    CYC = f'(call Iterator::skip (call Iterator::cycle {H}) 1)'
+    for pat, succ in ((f'(call Iterator::sum (call Iterator::map (call Iterator::zip {H} {CYC}) (closure *)))', 1),
+                      (f'(call Iterator::sum (call Iterator::map (call Iterator::zip {CYC} {H}) (closure *)))', 0)):
+        if match(pat, found[0]) is None:
+            continue
+        cls = [x for x in subterms(found[0]) if x[0] == 'closure']
+        if len(cls) != 1:
+            return False
+        cl = cx.facts.fn(cls[0][1]) if hasattr(cx.facts, 'fn') else None
+        cl = cl or next((c for c in cx.facts.closures_of(b.name) if c.name == cls[0][1]), None)
+        return cl is not None and match(f'(call i32::signum (sub (field {succ} (param _)) (field {1 - succ} (param _))))', cx.retval(cl)) is not None
+    return False
+
+
 def order_vote_rule(cx):
     """shared with C03: the orientation vote must go once around the WHOLE hull (wrap-around pair included), else the answer depends on
     where the hull's index list starts, i.e. on the frame"""
@@ -41,6 +69,8 @@ def order_vote_rule(cx):
         ok = len(cars) == 1 and match('(add _ (call i32::signum (sub (index $h (rem (add 1 $i) (len $h))) (index $h $i))))', cars[0]) is not None
         e = match('(add _ (call i32::signum (sub (index $h (rem (add 1 $i) (len $h))) (index $h $i))))', cars[0]) if cars else None
         ok = ok and e is not None and match('(call *convex_hull_2d (param points))', e['h']) is not None
+        if not cars:
+            ok = _vote_as_sum(cx, b)
         votes[fn] = ok
     cx.ob('EXPR', 'order-vote:siblings', votes == {'geom2::hull::point_order_direction': True, 'geom2::curve2::Curve2::from_points_ccw': True},
           'both order detectors sum signum(hull[(i+1)%n] - hull[i]) over the convex hull of the input and decide on `sum > 0` (counter-clockwise / keep order)', found=str(votes))
